@@ -75,6 +75,8 @@ type Definitions struct {
 	Procs    []*Graph `json:"procs"`
 	Signals  []string `json:"signals,omitempty"`
 	Messages []string `json:"messages,omitempty"`
+	Escalations []string `json:"escalations,omitempty"`
+	Errors   []string `json:"errors,omitempty"`
 	MsgFlows [][2]string `json:"msgFlows,omitempty"`
 	// header variations (C15): attributes of the definitions element that the rest of the document may rely on
 	TypeLang     bool   `json:"typeLang,omitempty"`     // declare typeLanguage explicitly
@@ -346,6 +348,10 @@ func (g *Graph) emitNodes(b *strings.Builder, ind string) {
 				} else {
 					fmt.Fprintf(b, "%s  <bpmn:messageEventDefinition id=\"%s_ed%d\" messageRef=\"%s\"/>\n", ind, n.ID, i, e.Ref)
 				}
+			case "escalation":
+				fmt.Fprintf(b, "%s  <bpmn:escalationEventDefinition id=\"%s_ed%d\" escalationRef=\"%s\"/>\n", ind, n.ID, i, e.Ref)
+			case "error":
+				fmt.Fprintf(b, "%s  <bpmn:errorEventDefinition id=\"%s_ed%d\" errorRef=\"%s\"/>\n", ind, n.ID, i, e.Ref)
 			case "timer":
 				parts := strings.SplitN(e.Timer, ":", 2)
 				el := map[string]string{"D": "timeDuration", "C": "timeCycle", "T": "timeDate"}[parts[0]]
@@ -429,6 +435,12 @@ func (d *Definitions) XML() string {
 	sort.Strings(msgs)
 	for _, s := range msgs {
 		fmt.Fprintf(&b, "  <bpmn:message id=\"%s\" name=\"%s\"/>\n", s, s)
+	}
+	for _, s := range d.Escalations {
+		fmt.Fprintf(&b, "  <bpmn:escalation id=\"%s\" name=\"%s\" escalationCode=\"%s\"/>\n", s, s, s)
+	}
+	for _, s := range d.Errors {
+		fmt.Fprintf(&b, "  <bpmn:error id=\"%s\" name=\"%s\" errorCode=\"%s\"/>\n", s, s, s)
 	}
 	if len(d.MsgFlows) > 0 {
 		b.WriteString("  <bpmn:collaboration id=\"Collab\">\n")
